@@ -243,11 +243,14 @@ pub fn mutate(rng: &mut Rng, enc: &[u8]) -> Vec<u8> {
             v.extend(tail);
         }
         6 => {
-            // non-minimal remaining length
+            // non-minimal remaining length, spelled with 2, 3 or 4 bytes (the frame stays complete)
             if v.len() > 1 && v[1] < 0x80 {
                 let l = v[1];
+                let extra = 1 + rng.below(3) as usize;
                 v[1] = l | 0x80;
-                v.insert(2, 0);
+                for k in 0..extra {
+                    v.insert(2 + k, if k + 1 == extra { 0 } else { 0x80 });
+                }
             }
         }
         7 => {
@@ -498,8 +501,11 @@ pub fn respell_v5(rng: &mut Rng, enc: &[u8]) -> Vec<u8> {
     let mut v = enc.to_vec();
     if v.len() > 1 && v[1] < 0x80 && rng.chance(1, 2) {
         let l = v[1];
+        let extra = 1 + rng.below(3) as usize;
         v[1] = l | 0x80;
-        v.insert(2, 0);
+        for k in 0..extra {
+            v.insert(2 + k, if k + 1 == extra { 0 } else { 0x80 });
+        }
     }
     v
 }
